@@ -275,6 +275,7 @@ class Gen:
         self.uses_fuel = False
         self.calls = {}                 # rust path / method name -> (gallina term, "pure" | "nres"): modelled callees
         self.identity_calls = set()     # wrappers that do not change the bytes (X::from_le_bytes, .as_le_bytes(), ...)
+        self.big = None                 # big-integer mode: dict(be=, into=, gen_params=set(), prime_params=set()) or None
         self.loop_depth = 0             # >0 while translating a `for` body: `return e` leaves the loop with (inl e)
         self.ctor_calls = {}            # rust path of a tuple variant / constructor -> gallina constructor (applied to its arguments)
         self.str_vars = set()           # gallina names of values of type &str (lists of scalar values)
@@ -353,6 +354,16 @@ class Gen:
             return gos(0, [])
         if kind == "fncall" and e[1] in ("Ok", "Err") and len(e[2]) == 1:
             return self.expr(e[2][0], lambda t, tt: k("(%s %s)" % ("inl" if e[1] == "Ok" else "inr", t), ("result", e[1], tt)))
+        if kind == "fncall" and self.big is not None and e[1] == "KValue::bigint" and not e[2]:
+            return k("(Z.of_N k_value)", "big")
+        if kind == "fncall" and self.big is not None and e[1] in self.big.get("res_calls", {}):
+            # a call whose Result (Ok bytes | Err kind) is the value of the expression
+            g_ = self.big["res_calls"][e[1]]
+            args = e[2]
+            def gor(i, acc):
+                if i == len(args): return k("(res_view (%s %s))" % (g_, " ".join(acc)), "resopt")
+                return self.expr(args[i], lambda t, tt: gor(i + 1, acc + [t]))
+            return gor(0, [])
         if kind == "fncall" and e[1] in self.ctor_calls:
             args = e[2]
             def gok(i, acc):
@@ -435,6 +446,13 @@ class Gen:
                         self.unify(ta, tb, op)
                         term = {"==": "(%s =? %s)", "!=": "(negb (%s =? %s))", "<": "(%s <? %s)", ">": "(%s <? %s)", "<=": "(%s <=? %s)", ">=": "(%s <=? %s)"}[op]
                         return k(term % ((b, a) if op in (">", ">=") else (a, b)), "bool")
+                    if ta == "big" or tb == "big":
+                        if ta != tb: raise Untranslatable("mixed big-integer arithmetic")
+                        if op in ("+", "-", "*"): return k("(%s %s %s)%%Z" % (a, op, b), "big")
+                        if op == "%":
+                            v_ = self.fresh("z")
+                            return "match rem %s %s with Ok %s =>\n  %s | _ => None end" % (a, b, v_, k(v_, "big"))
+                        raise Untranslatable("big-integer operator %s" % op)
                     t = self.unify(ta, tb, op)
                     if t is None: raise Untranslatable("untyped operands of %s" % op)
                     if t == "bool": raise Untranslatable("%s on bool" % op)
@@ -472,6 +490,39 @@ class Gen:
                         return k("((%s * %s) mod %d)" % (a, b, m), t)
                     return self.expr(args[0], kb, ta)
                 return self.expr(recv, ka, want)
+            if self.big is not None:
+                B = self.big
+                if name == "as_bigint" and not args:
+                    return self.expr(recv, lambda a, ta: k("(from_bytes_le %s)" % a, "big"))
+                if name == "to_bigint" and not args:
+                    if recv[0] == "fncall" and recv[1] == "Generator::default": return k("(Z.of_N generator)", "big")
+                    if recv[0] == "fncall" and recv[1] == "LargeSafePrime::default": return k("(from_bytes_le n_le)", "big")
+                    rk = self.lhs_key(recv)
+                    if rk in B.get("gen_params", ()): return k("(Z.of_N %s)" % self.env[rk][0], "big")
+                    if rk in B.get("prime_params", ()): return k("(from_bytes_le %s)" % self.env[rk][0], "big")
+                    raise Untranslatable(".to_bigint() of %r" % (recv,))
+                if name == "modpow" and len(args) == 2:
+                    def kb0(a, ta):
+                        def kb1(e_, te):
+                            def kb2(m_, tm):
+                                if not (ta == te == tm == "big"): raise Untranslatable("modpow operands")
+                                v_ = self.fresh("z")
+                                return "match modpow %s %s %s %s with Ok %s =>\n  %s | _ => None end" % (B["be"], a, e_, m_, v_, k(v_, "big"))
+                            return self.expr(args[1], kb2)
+                        return self.expr(args[0], kb1)
+                    return self.expr(recv, kb0)
+                if name == "to_padded_32_byte_array_le" and not args:
+                    def kp(a, ta):
+                        if ta != "big": raise Untranslatable("padding of a non-integer")
+                        v_ = self.fresh("p")
+                        return "match to_padded_32_byte_array_le %s %s with Ok %s =>\n  %s | _ => None end" % (B["be"], a, v_, k(v_, ("arr", "u8")))
+                    return self.expr(recv, kp)
+                if name == "into" and not args and B.get("into"):
+                    def ki2(a, ta):
+                        if ta != "big": raise Untranslatable(".into() of a non-integer")
+                        v_ = self.fresh("p")
+                        return "match %s %s with Ok %s =>\n  %s | _ => None end" % (B["into"], a, v_, k(v_, ("arr", "u8")))
+                    return self.expr(recv, ki2)
             if name in self.identity_calls and not args:
                 return self.expr(recv, k, want)
             if name in ("to_be_bytes", "to_le_bytes") and not args:
